@@ -397,6 +397,101 @@ async fn client_config(a: Args, idx: usize, m: refimpl::ss::Method) -> Report {
     rep
 }
 
+/// More live sessions than the server's association table holds (thorough tier): a victim session sends ids 1..3, then
+/// 10 300 OTHER sessions of the same key send one datagram each (the table has 10 240 places), then a verbatim copy of
+/// the victim's id 2 arrives - its timestamp still acceptable. "Accepted before" does not depend on how many other sessions
+/// the server has seen since.
+async fn table_overflow(a: Args, idx: usize, m: refimpl::ss::Method) -> Report {
+    let mut rep = Report::new();
+    let mut rng = Rng::derive(a.seed, 0xC110, idx as u64);
+    let cfg = Cfg::random(&mut rng, Proto::Ss(m), 0);
+    let dir = work_dir(&a, &format!("c11-o{idx}"));
+    let mut d = Deploy::new(cfg.clone(), Transport::Tcp, true, 4, &dir);
+    d.server_mode = Some("udp".into());
+    let cfgname = format!("{}|users=0", m.name());
+    let (dd, tag) = (d.clone(), format!("c11-o{idx}"));
+    let started = tokio::task::spawn_blocking(move || {
+        let mut server = start_node("server", &dd.server_json(), &dd.dir, &tag, dd.workers, &dd.log_level, Some(16000), None).map_err(|e| e.to_string())?;
+        wait_ready(&mut server, None, Some(dd.server_port), Duration::from_secs(15))?;
+        Ok::<Node, String>(server)
+    })
+    .await
+    .unwrap();
+    let mut server = match started {
+        Ok(s) => s,
+        Err(e) => {
+            rep.inconclusive(format!("server does not start: {}", e.lines().next().unwrap_or("")));
+            return rep;
+        }
+    };
+    // a sink that counts what arrives per (session tag, id); it never answers
+    let t = UdpSocket::bind("127.0.0.1:0").await.unwrap();
+    let tport = t.local_addr().unwrap().port();
+    let log: Arc<std::sync::Mutex<HashMap<(u64, u64), u32>>> = Arc::new(std::sync::Mutex::new(HashMap::new()));
+    let l2 = log.clone();
+    let sink = tokio::spawn(async move {
+        let mut b = vec![0u8; 2048];
+        while let Ok((n, _)) = t.recv_from(&mut b).await {
+            if n >= 16 {
+                *l2.lock().unwrap().entry((u64::from_be_bytes(b[..8].try_into().unwrap()), u64::from_be_bytes(b[8..16].try_into().unwrap()))).or_insert(0) += 1;
+            }
+        }
+    });
+    let keys = cfg.ref_client_keys();
+    let target = refimpl::addr::Addr::V4([127, 0, 0, 1], tport);
+    let t0 = std::time::Instant::now();
+    let now = std::time::SystemTime::now().duration_since(std::time::UNIX_EPOCH).unwrap().as_secs();
+    let mk = |session: u64, id: u64, rng: &mut Rng| {
+        let mut payload = session.to_be_bytes().to_vec();
+        payload.extend_from_slice(&id.to_be_bytes());
+        let p = refimpl::ss::S22UdpPacket { session_id: session, packet_id: id, type_byte: 0, timestamp: now, client_session_id: None, padding: vec![], addr: target.clone(), payload };
+        refimpl::ss::s22_udp_client_encode(m, &keys, &p, &rng.arr())
+    };
+    let victim = rng.next_u64();
+    let vs = UdpSocket::bind("127.0.0.1:0").await.unwrap();
+    let mut copy = Vec::new();
+    for id in 1..=3u64 {
+        let w = mk(victim, id, &mut rng);
+        let _ = vs.send_to(&w, ("127.0.0.1", d.server_port)).await;
+        if id == 2 {
+            copy = w;
+        }
+        tokio::time::sleep(Duration::from_millis(5)).await;
+    }
+    let others = UdpSocket::bind("127.0.0.1:0").await.unwrap();
+    let n_others = 10_300u64;
+    for k in 0..n_others {
+        let w = mk(victim.wrapping_add(1 + k), 1, &mut rng);
+        let _ = others.send_to(&w, ("127.0.0.1", d.server_port)).await;
+        if k % 50 == 49 {
+            tokio::time::sleep(Duration::from_millis(20)).await;
+        }
+    }
+    tokio::time::sleep(Duration::from_millis(1500)).await;
+    let opened = log.lock().unwrap().keys().filter(|(s, _)| *s != victim).count();
+    let age = t0.elapsed().as_secs();
+    let _ = vs.send_to(&copy, ("127.0.0.1", d.server_port)).await;
+    tokio::time::sleep(Duration::from_millis(600)).await;
+    let times = log.lock().unwrap().get(&(victim, 2)).copied().unwrap_or(0);
+    rep.evaluations += n_others + 4;
+    rep.mon("other_sessions_relayed_before_the_copy", opened as u64);
+    rep.case(&(idx, "table-overflow"), times > 0);
+    if times == 0 || opened < 10_241 || age > 28 {
+        rep.inconclusive(format!("{cfgname}: table overflow not reached within the timestamp's lifetime ({opened} other sessions relayed in {age} s)"));
+    } else if times > 1 {
+        rep.violation(format!("C11|nodes|{}|copy-of-an-accepted-packet-id-delivered-after-more-sessions-than-the-association-table-holds", cfgname), format!("{cfgname}: packet id 2 of a session reached the target {times} times: after {opened} other sessions (table: 10240) a verbatim copy, {age} s old, was relayed again"), json!({"seed": a.seed, "config": cfgname, "other_sessions": opened, "age_s": age}));
+    } else {
+        rep.mon("copies_refused_after_table_overflow", 1);
+    }
+    if !server.alive() {
+        rep.violation(format!("C11|nodes|{}|server-exited-under-{}-sessions", cfgname, n_others), "server exited".to_string(), json!({"log": server.log_tail(8)}));
+    }
+    sink.abort();
+    drop(server);
+    let _ = std::fs::remove_dir_all(&dir);
+    rep
+}
+
 pub async fn run(a: &Args) -> Report {
     use refimpl::ss::Method as M;
     let mut m: Vec<(M, usize)> = vec![(M::B3Aes128Gcm, 0), (M::B3ChaCha20Poly1305, 0)];
@@ -420,6 +515,10 @@ pub async fn run(a: &Args) -> Report {
         if let Ok(r) = h.await {
             rep.merge(r);
         }
+    }
+    if a.thorough {
+        // alone (10 300 sockets in the server): after everything else
+        rep.merge(table_overflow(a.clone(), 0, M::B3Aes128Gcm).await);
     }
     rep
 }
